@@ -68,3 +68,9 @@ chk("C15", "model_checking",
     "Differential oracle; the equivalence check of successors uses yaml.v3 decoding plus IRI expansion with the declared and default prefixes.",
     "explicit-state depth-bounded search over rewrite sequences with text-level deduplication and a differential oracle on the real implementation",
     "DESIGN.md §3 C15")
+
+chk("C10", "model_checking",
+    "Stateless model checking of the real code under a hand-written cooperative scheduler: the repository is rebuilt with every access to a package-level variable hooked (type-aware instrumenter, regenerated from the working tree), six 2-3 thread scenarios are explored over all schedules up to a preemption bound (2 quick / 3 thorough; 1-2 for three threads), and for every execution each thread's result is compared with its serial result, with a vector-clock race verdict and deadlock detection; a free-running -race pass of the same bodies is an auxiliary cross-check for unhooked code.",
+    "Scheduling points exist only at hooked accesses of repository package-level variables and shim sync operations; interleavings inside dependencies are not explored (auxiliary -race pass only). The same schedule is replayed twice before a violation is believed.",
+    "stateless exploration of thread interleavings with iterative preemption bounding under a controlled scheduler, on the instrumented implementation",
+    "DESIGN.md §3 C10")
